@@ -542,7 +542,7 @@ def eval_checks(ctx, name, fn, pairs, shard=80):
 # known-finding classes (predicates on the INPUT font and the observed difference)
 
 EPS = 2.0 ** -52
-GEN_CLASSES = ("glyph_lib_linebreaks", "note_blanks", "f2_numbers", "cr_in_note", "subnormal_advance", "attr_ws")
+GEN_CLASSES = ("glyph_lib_linebreaks", "note_blanks", "cr_in_note", "attr_ws")
 SURFACE_CLASSES = ("comments_in_glyph", "open_close_empties", "empty_lib_element", "cdata_note", "glif_doctype", "pi",
                    "cdata_strings", "ws_in_numbers", "non_utf8_encoding", "crlf_text")
 
@@ -603,6 +603,8 @@ def _num(x):
 
 def classify_diff(font, path, got, want):
     """-> class id of the known-finding class the difference (path, got, want) falls into, or None.
+    (The number classes flush_to_zero / near_integer_rounded / scale_near_one / advance_subnormal were
+    repaired by cf70ca2, cce693b, ce237d0: such differences are violations now.)
     `want` is the value of the input font, `got` what came back."""
     g, sub = _glyph_of(font, path)
     if g is not None:
@@ -621,24 +623,6 @@ def classify_diff(font, path, got, want):
             w = (g.get("image") or {}).get("fileName", "")
             if re.search(r"[\t\n\r]", w) and got == re.sub(r"[\t\n\r]", " ", w):
                 return "attr_whitespace"
-        if re.search(r"/transform\[[03]\]$", sub):
-            w, gt = _num(want), _num(got)
-            if w is not None and gt == 1.0 and w != 1.0 and abs(w - 1.0) <= EPS:
-                return "scale_near_one"
-        m = re.match(r"^/advance\[([01])\]$", sub)
-        if m:
-            a = [_num(x) for x in g["advance"]]
-            def normal(v):
-                return v is not None and v != 0.0 and abs(v) >= 2.0 ** -1022 and abs(v) != float("inf") and v == v
-            if not normal(a[0]) and not normal(a[1]) and _num(got) == 0.0 and a[int(m.group(1))] not in (0.0, None):
-                return "advance_subnormal"
-    if path.startswith("kerning/") or path.startswith("info/") or path.startswith("guidelines["):
-        w, gt = _num(want), _num(got)
-        if w is not None and gt == 0.0 and w != 0.0 and abs(w) <= EPS:
-            return "flush_to_zero"
-        # an integer-or-float number within 2^-52 of a non-zero integer is written as that integer
-        if w is not None and gt is not None and gt != w and gt == round(w) and gt != 0.0 and abs(w - gt) <= EPS:
-            return "near_integer_rounded"
     return None
 
 
